@@ -11,6 +11,7 @@ func init() {
 	vRegister("VerifC02ParseBytes", VerifC02ParseBytes)
 	vRegister("VerifC02ParseStructured", VerifC02ParseStructured)
 	vRegister("VerifC02HugeLength", VerifC02HugeLength)
+	vRegister("VerifC02LegacyCPU", VerifC02LegacyCPU)
 }
 
 // vC02Downstream exercises what the statement promises for every accepted profile.
@@ -125,4 +126,38 @@ func VerifC02HugeLength() {
 	}
 	vObserve(true)
 	vC02Downstream(p)
+}
+
+// VerifC02LegacyCPU: bytes that resemble a binary CPU profile - a valid
+// header of either word size and endianness followed by k arbitrary words
+// (sample counts, depths, addresses, trailer: anything) - give an error or a
+// valid, writable profile; never a panic.
+func VerifC02LegacyCPU() {
+	size := []int{8, 4}[vChoice("wordsize", 2)]
+	big := vChoice("bigendian", 2) == 1
+	var data []byte
+	for _, w := range []uint64{0, 3, 0, 10000, 0} {
+		data = vPutWord(data, w, size, big)
+	}
+	k := 2 + vChoice("words", vBound("c02.cpuwords", 4))
+	for i := 0; i < k; i++ {
+		w := vUint64("w" + string(rune('0'+i)))
+		if size == 4 {
+			vAssume(w <= 0xffffffff)
+		}
+		data = vPutWord(data, w, size, big)
+	}
+	// (parseLegacy tries this parser first; the text parsers that follow it on
+	// errUnrecognized need regexp matching of symbolic bytes and are outside)
+	p, err := parseCPU(data)
+	vReach("C02.cpu:returned")
+	if err != nil {
+		vObserve(0)
+		return
+	}
+	p.addLegacyFrameInfo()
+	vAssert(p.CheckValid() == nil, "C02.cpu.valid: a binary CPU profile was accepted but is not valid")
+	var buf bytes.Buffer
+	vAssert(p.WriteUncompressed(&buf) == nil, "C02.cpu.write: an accepted profile cannot be written")
+	vObserve(len(p.Sample))
 }
